@@ -101,7 +101,7 @@ CHECKS["C02"] = dict(
 CHECKS["C04"] = dict(
     text="Theorems over the reals (round-half-even on round_value decimals, Flocq) about the recurrence specifications of SMA/EMA/RMA/WMA: "
          "EMA and RMA obey r[t] = a x[t] + (1-a) r[t-1] within half a unit of the last decimal, SMA its incremental law, seeds are the "
-         "rounded window mean, WMA is the rounded weighted mean with weights period..1 over period(period+1)/2, no reading before `period` "
+         "rounded window mean, WMA is the rounded weighted mean with weights period..1 over period(period+1)/2, the series HMA smooths is 2*WMA(period/2) - WMA(period), no reading before `period` "
          "consecutive inputs, EMA stays inside the range of its inputs, and (for every "
          "NumOps instance) position independence. The recurrence specs are tied to the code by their own bit-exact correspondence "
          "(check_spec) and the engine model by check_ind; falsifier = independent textbook references incl. late-starting and zero-valued inputs.",
@@ -128,7 +128,7 @@ CHECKS["C06"] = dict(
     text="Theorems: RSI = 100 - 100/(1+gain/loss) lies in [0,100] and is 100 when the average loss is 0, Wilder's averages stay >= 0 "
          "(reals); OBV's step law (unchanged / +volume / -volume by the close) for every NumOps instance; VWAP over a whole stream = rounded "
          "ratio of the cumulative sums of volume*typical price and volume; ROC = percentage change against the input `period` steps "
-         "back. All nine indicators: bit-exact "
+         "back; the MACD line is fast EMA - slow EMA (engine model). All nine indicators: bit-exact "
          "engine correspondence + recurrence-spec correspondence (RSI, ROC, OBV, VWAP) + independent references.",
     note="MACD, STOCH, TSI, AROON, ADX: correspondence + reference falsifier only (single-reading relations of MACD/AROON are in C10). Real-number axioms as for C04.",
     technique="Coq proof over R / generic NumOps + vm_compute correspondences + reference falsifier", design="5/C06")
